@@ -124,7 +124,8 @@ def run(tier, seed):
     rng = random.Random(seed)
     cases = []
     search_variants = [[], ["/lib1"], ["/lib2", "/lib1"], ["/lib1", "/lib2"], ["../lib1"], ["/p/sub", "/lib2"],
-                       ["/lib1", "/p/sub", "/lib2"], ["../lib2", "../p/sub"], ["/cwd"], ["/lib2", "/cwd", "/lib1"], ["."], ["./../lib2", "."]]
+                       ["/lib1", "/p/sub", "/lib2"], ["../lib2", "../p/sub"], ["/cwd"], ["/lib2", "/cwd", "/lib1"], ["."], ["./../lib2", "."],
+                       ["/lib1", "/lib2", "/lib1"], ["/lib2", "/lib1", "/lib2/../lib2"], ["../lib1", "/p/sub", "/lib1/."]]
     # (1) exhaustive: one name present in every subset of the candidate directories
     next_id = [10]
 
